@@ -8,6 +8,7 @@ import (
 	"context"
 	"fmt"
 	"sort"
+	"strings"
 	"testing/fstest"
 	"time"
 
@@ -132,4 +133,78 @@ func init() {
 			return m
 		}
 	}
+}
+
+type pageContext struct {
+	name string
+	wrap func(files map[string]string, page string, data map[string]any) (map[string]string, map[string]any)
+}
+
+func withKeys(d map[string]any, kv map[string]any) map[string]any {
+	out := make(map[string]any, len(d)+len(kv))
+	for k, v := range d {
+		out[k] = v
+	}
+	for k, v := range kv {
+		out[k] = v
+	}
+	return out
+}
+
+func withFile(files map[string]string, name, src string) map[string]string {
+	out := make(map[string]string, len(files)+1)
+	for k, v := range files {
+		out[k] = v
+	}
+	out[name] = src
+	return out
+}
+
+var pageContexts = []pageContext{
+	{"vif-branch", func(f map[string]string, p string, d map[string]any) (map[string]string, map[string]any) {
+		return withFile(f, p, `<div v-if="ctxyes">`+f[p]+`</div><b v-else>ctx-else</b>`), withKeys(d, map[string]any{"ctxyes": true})
+	}},
+	{"velse-template", func(f map[string]string, p string, d map[string]any) (map[string]string, map[string]any) {
+		return withFile(f, p, `<i v-if="ctxno">n</i><template v-else>`+f[p]+`</template>`), withKeys(d, map[string]any{"ctxno": false})
+	}},
+	{"loop-body", func(f map[string]string, p string, d map[string]any) (map[string]string, map[string]any) {
+		return withFile(f, p, `<section v-for="ctxw in ctxone">`+f[p]+`</section>`), withKeys(d, map[string]any{"ctxone": []any{"w"}})
+	}},
+	{"component-file", func(f map[string]string, p string, d map[string]any) (map[string]string, map[string]any) {
+		return withFile(withFile(f, "ctxinner.vuego", f[p]), p, `<template include="ctxinner.vuego"></template>`), d
+	}},
+	{"slot-content", func(f map[string]string, p string, d map[string]any) (map[string]string, map[string]any) {
+		return withFile(withFile(f, "ctxwrap.vuego", `<section><slot>ctx-fallback</slot></section>`), p, `<template include="ctxwrap.vuego">`+f[p]+`</template>`), d
+	}},
+	{"velseif-element", func(f map[string]string, p string, d map[string]any) (map[string]string, map[string]any) {
+		return withFile(f, p, `<i v-if="ctxno">n</i><article v-else-if="ctxyes">`+f[p]+`</article><b v-else>ctx-else</b>`), withKeys(d, map[string]any{"ctxno": false, "ctxyes": true})
+	}},
+}
+
+// pageInContext: the page of a `page` correspondence case, wrapped; nil when the case is not a plain page over map data
+func pageInContext(c *Case, ctx pageContext) *Case {
+	if c == nil || c.Input["op"] != "page" {
+		return nil
+	}
+	files, ok := c.Input["src"].(map[string]string)
+	page, _ := c.Input["page"].(string)
+	if !ok || page == "" || strings.HasPrefix(files[page], "---") {
+		return nil
+	}
+	data, ok := fromVal(c.Input["data"].(map[string]any)).(map[string]any)
+	if !ok {
+		return nil
+	}
+	comps := map[string]string{}
+	if cj, ok := c.Input["comps"].([]any); ok {
+		for _, e := range cj {
+			if pr, ok := e.([]any); ok && len(pr) == 2 {
+				comps[fmt.Sprint(pr[0])] = fmt.Sprint(pr[1])
+			}
+		}
+	}
+	f2, d2 := ctx.wrap(files, page, data)
+	v := pageCase(strings.TrimPrefix(c.Name, "page: ")+" in "+ctx.name, f2, comps, page, d2, "context:"+ctx.name)
+	v.Key = "ctx|" + ctx.name + "|" + c.Key
+	return v
 }
